@@ -55,10 +55,13 @@ def value_pool(rng, vclass, dtype, k):
     elif vclass == "ge2^53" and hi > 2 ** 53:
         base = 2 ** 53
     elif vclass == "max":
-        base = hi - 4 * k
+        base = hi - 4 * k + 1        # the pool reaches the type maximum itself
     else:
         base = 1000
     vals = base + rng.choice(4 * k, size=k, replace=False).astype(np.uint64)
+    if vclass == "max" and rng.random() < .5:
+        vals[0] = hi                 # ... and does so in half of the blocks
+        vals = np.unique(vals)
     return vals.astype(dtype)
 
 
@@ -315,9 +318,9 @@ def replay(ctx, case):
 
 
 SUBS = [
-    Sub("encode", run, replay, quick=2400, thorough=120000),
-    Sub("bits16", run_family(16), replay, quick=80, thorough=1500, shards=4),
-    Sub("bits32", run_family(32), replay, quick=16, thorough=200, shards=4),
-    Sub("many_tables", run_many_tables, replay, quick=4, thorough=40,
+    Sub("encode", run, replay, quick=2400, thorough=360000),
+    Sub("bits16", run_family(16), replay, quick=80, thorough=4500, shards=4),
+    Sub("bits32", run_family(32), replay, quick=16, thorough=600, shards=4),
+    Sub("many_tables", run_many_tables, replay, quick=4, thorough=120,
         shards=2),  # ~65k (quick) / ~131k (thorough) lookup tables per chunk
 ]
